@@ -881,3 +881,29 @@ M('c11-k2-inverted-arms-mismatch-matches', 'C11', 'R1', MT,
   "        elif self.main_type == media_type.main_type:\n            main_matches = 1\n        else:\n            main_matches = 0\n")
 # negative controls (silent): preserving/k2-c11-1; `mismatch = any(...)` / `if mismatch: return`; `[p for p in matching if a != b]` truthy -> return;
 # `if not all(a == b for ...): return`
+
+# ----------------------------------------------------------------------- third preserving wave (k3): refactoring + break
+# k3-c11-2: the ranking key is a module-level one-return function (read like the lambda); broken: it picks the candidate text
+M2('c11-k3-key-function-ranks-by-name-wired', 'C11', 'R1', [
+    {'file': MT, 'old': "def best_match(media_types: Iterable[str], header: str) -> str:\n",
+     'new': "def _quality_of(mt_quality):\n    return mt_quality[0]\n\n\ndef best_match(media_types: Iterable[str], header: str) -> str:\n"},
+    {'file': MT, 'old': "            key=lambda mt_quality: mt_quality[1],\n", 'new': "            key=_quality_of,\n"}])
+# k3-c12-3: `return _UNRESOLVED` (module-level `(None, None, None)`) is the all-None answer; broken: it is returned for a
+# non-empty requested type only, otherwise the resolver falls through to the handler lookup
+M2('c11-k3-unresolved-constant-returned-conditionally', 'C11', 'R4', [
+    {'file': HD, 'old': "class ResolverMethod(Protocol):\n", 'new': "_UNRESOLVED = (None, None, None)\n\n\nclass ResolverMethod(Protocol):\n"},
+    {'file': HD, 'old': "                    return None, None, None\n",
+     'new': "                    if raise_not_found is None:\n                        return _UNRESOLVED\n"}], also=('C12', 'C04', 'C19'))
+M2('c11-k3-unresolved-constant-holds-a-handler-slot', 'C11', 'R4', [
+    {'file': HD, 'old': "class ResolverMethod(Protocol):\n", 'new': "_UNRESOLVED = (None, None, 0)\n\n\nclass ResolverMethod(Protocol):\n"},
+    {'file': HD, 'old': "                    return None, None, None\n", 'new': "                    return _UNRESOLVED\n"}], also=('C12', 'C04', 'C19'))
+# k3-c11-4: `data = self.data` bound once inside resolve() is the mapping; broken: the exact lookup through it asks about the default
+_K3_DATA = [
+    {'file': HD, 'old': "                media_type = default\n\n", 'new': "                media_type = default\n\n            data = self.data\n\n"},
+    {'file': HD, 'old': "tuple(self.data.keys())", 'new': "tuple(data)"},
+    {'file': HD, 'old': "                handler = self.data[matched_type]\n", 'new': "                handler = data[matched_type]\n"}]
+M2('c11-k3-data-local-exact-lookup-of-default', 'C11', 'R4', _K3_DATA + [
+    {'file': HD, 'old': "                handler = self.data[media_type]\n", 'new': "                handler = data[default]\n"}], also=('C12', 'C04', 'C19'))
+M2('c11-k3-data-local-bestmatch-on-hit', 'C11', 'R4', _K3_DATA + [
+    {'file': HD, 'old': "                handler = self.data[media_type]\n", 'new': "                handler = data[media_type]\n"},
+    {'file': HD, 'old': "            if not handler:\n", 'new': "            if handler:\n"}], also=('C12', 'C04', 'C19'))
